@@ -24,6 +24,8 @@ func (x *Exec) queryOpt(st *State, goal string, light bool) string {
 	var b strings.Builder
 	b.WriteString("(set-logic ALL)\n")
 	b.WriteString("(declare-sort F32 0)\n(declare-sort F64 0)\n(declare-sort Str 0)\n")
+	// the float axioms may declare isnan: compute them before the declarations are printed
+	fltAx := x.floatAxioms()
 	for _, l := range x.decls.Lines() {
 		b.WriteString(l)
 		b.WriteByte('\n')
@@ -32,7 +34,7 @@ func (x *Exec) queryOpt(st *State, goal string, light bool) string {
 		b.WriteString(l)
 		b.WriteByte('\n')
 	}
-	for _, l := range x.floatAxioms() {
+	for _, l := range fltAx {
 		b.WriteString(l)
 		b.WriteByte('\n')
 	}
